@@ -43,6 +43,10 @@ def run(ctx) -> None:
     from . import c13
 
     ctx.reuse("C10.slot-order", c13.one_to_one)
+    # the record emitters hand the caller's tip to the validator as it was given (no default substituted for falsy values)
+    from . import c09
+
+    ctx.reuse("C10.type-guard", c09.ad_slots)
     for name_, track_ in (("evo_aspirate", "remove"), ("evo_dispense", "add")):
         ctx.reuse("C10.tips-unchanged", c13.same_args, name_, track_)
 
@@ -96,6 +100,13 @@ def _static_seq(ctx, f, e: ast.AST):
         return out
     if isinstance(e, ast.Call) and call_fname(e) in ("list", "tuple") and len(e.args) == 1:
         return _static_seq(ctx, f, e.args[0])
+    if isinstance(e, ast.Subscript) and isinstance(e.slice, ast.Slice):
+        base = _static_seq(ctx, f, e.value)
+        parts = [e.slice.lower, e.slice.upper, e.slice.step]
+        if base is not None and all(p is None or (isinstance(p, ast.Constant) and isinstance(p.value, int)) or
+                                    (isinstance(p, ast.UnaryOp) and isinstance(p.op, ast.USub) and isinstance(p.operand, ast.Constant)) for p in parts):
+            val = [None if p is None else (p.value if isinstance(p, ast.Constant) else -p.operand.value) for p in parts]
+            return base[val[0]:val[1]:val[2]]
     return None
 
 
@@ -738,6 +749,18 @@ def slots(ctx) -> None:
                         it = v.res.resolve(it, _at)  # a module-level constant tuple of the slot values
                     if isinstance(it, (ast.List, ast.Tuple)) and it.elts and all(isinstance(e, ast.Constant) for e in it.elts):
                         found.append((v, n, it))
+                        continue
+                    # a loop over (an enumeration of) Tip members: tuple(Tip)[1:], a module-level constant bound to such a sequence
+                    core = n.ast.iter.args[0] if isinstance(n.ast.iter, ast.Call) and call_fname(n.ast.iter) == "enumerate" and n.ast.iter.args else n.ast.iter
+                    members = None
+                    if isinstance(core, ast.Name):
+                        r_ = ctx.prog.resolve_name(v.f.module, core.id)
+                        if isinstance(r_, tuple) and r_[0] == "value" and r_[1].assigns.get(r_[2]) is not None:
+                            members = _static_seq(ctx, v.f, r_[1].assigns[r_[2]])
+                    if members is None and not isinstance(core, ast.Name):
+                        members = _static_seq(ctx, v.f, core)
+                    if members is not None and members and all(m in table for m in members):
+                        found.append((v, n, ast.List(elts=[ast.Constant(value=table[m]) for m in members], ctx=ast.Load())))
         if len(found) != 1:
             ctx.rep.inconclusive(rule, f"{f.qualname}/slot-loop", f"expected one loop over the literal slot list, found {len(found)}")
             continue
@@ -756,9 +779,20 @@ def slots(ctx) -> None:
                 for d, pol in fv.controlling(a.id, within=body):
                     pols.add(pol)
             ok = pols == {True, False}
+        if not augs and isinstance(lp.ast.target, ast.Tuple) and len(lp.ast.target.elts) == 2 and all(isinstance(x, ast.Name) for x in lp.ast.target.elts):
+            # pre-filled slot list: slots = ["0"] * N; for i, tip in enumerate(<tips in slot order>): if tip in tips: slots[i] = <volume>
+            idx_name = lp.ast.target.elts[0].id
+            stores = [n for n in (fv.cfg.nodes[i] for i in body) if n.kind == "stmt" and isinstance(n.ast, ast.Assign) and isinstance(n.ast.targets[0], ast.Subscript) and is_name(n.ast.targets[0].slice, idx_name)]
+            ok = None
+            if len(stores) == 1 and len(tests) == 1 and not fv.cfg.loop_has_break.get(lp.id) and isinstance(stores[0].ast.targets[0].value, ast.Name):
+                init, _a = fv.def_expr(stores[0].ast.targets[0].value, lp.id)
+                prefilled = isinstance(init, ast.BinOp) and isinstance(init.op, ast.Mult) and any(isinstance(x, ast.List) and len(x.elts) == 1 and isinstance(x.elts[0], ast.Constant) and str(x.elts[0].value) == "0" for x in (init.left, init.right))
+                ctrl = fv.controlling(stores[0].id, within=body)
+                ok = True if prefilled and len(ctrl) == 1 and ctrl[0][1] else None
         ctx.rep.check(ok, rule, f"{f.qualname}/one-slot-each", "exactly one slot string is appended per slot on both branches", "the slot loop does not append exactly one slot string per slot (selected -> volume, else 0)", where=f.where(lp.ast))
         # selected test: tipv in [t.value for t in tips]
         t = tests[0].ast if tests else None
-        ok_t = isinstance(t, ast.Compare) and isinstance(t.ops[0], ast.In) and is_name(t.left, lp.ast.target.id if isinstance(lp.ast.target, ast.Name) else "?")
+        loop_names = [x.id for x in ast.walk(lp.ast.target) if isinstance(x, ast.Name)]
+        ok_t = isinstance(t, ast.Compare) and isinstance(t.ops[0], ast.In) and isinstance(t.left, ast.Name) and t.left.id in loop_names[-1:]
         ctx.rep.check(bool(ok_t), rule, f"{f.qualname}/selected-test", "a slot is filled iff its tip value is among the selected tips", "slot selection is not `slot value in <values of the selected tips>`", where=f.where(lp.ast))
         # the slot string must be closed by the template: {tip_volumes}0,0,0,0 gives 12 numeric slots; selection string etc. are C13.template
